@@ -266,6 +266,14 @@ def r08_4(ctx, prog, crate, rec):
         # the slice searched is the vector par_extend filled
         v = {s.label() for s in b.prov.op_src(pe.args[1]) if s.kind in ("call",)}
         ctx.check(b.dominates(pe.bb, fm.bb), "R08.4", [b.path, "checked-after-broadcast"], "results are checked before the broadcast", fm.line())
+        # ... after every broadcast, in every mode: no way from the broadcast to the function's return or to the next round
+        # that does not pass the check (a test-mode or other early exit before it swallows the panic of a benchmark thread)
+        lp = b.innermost_loop(pe.bb)
+        skip = b.reach(b.succ[pe.bb], avoid=[fm.bb])
+        escapes = sorted(x for x in skip if x in b.returns or (lp is not None and x == lp["header"]))
+        ctx.check(not escapes, "R08.4", [b.path, "every-round-is-checked"],
+                  "the sampling function can %s after a broadcast without looking for missing per-thread results: a panic on a benchmark thread is swallowed on that path" %
+                  ("return" if any(x in b.returns for x in escapes) else "start the next round"), pe.line())
 
 
 def r08_5(ctx, prog, crate, rec):
